@@ -21,7 +21,9 @@ from ..pyvc.driver import Program, explore, call_function, run_stmts
 from ..pyvc.interp import SObj, HList, HDict, Seg, Engine
 from ..common import Finding
 
-DEBUG_CONTRACTS = {"ProgramData.imbue": lambda eng, a, kw: a[0], "ProgramData.lookup": lambda eng, a, kw: None}
+# imbue is a classmethod: called as ProgramData.imbue(obj, ...) the interpreter passes (cls, obj, ...) - the contract "returns the object it
+# was given" (clause W2 of the debug-frame lemma) means the first argument after the class
+DEBUG_CONTRACTS = {"ProgramData.imbue": lambda eng, a, kw: (a[1] if len(a) > 1 and isinstance(a[0], type) else a[0]), "ProgramData.lookup": lambda eng, a, kw: None}
 
 
 def _items(v):
